@@ -91,6 +91,7 @@ static void rec_segmask(int kind, size_t info_slices, int conservative, size_t p
   mi_segment_commit_mask(s, conservative != 0, p, size, &start, &full, &m);
   printf("F seg_commit_mask %llu %d %llu %llu %d %llu %llu = %llu %llu", U(s), kind, U(segsize), U(segstart), conservative, U(p), U(size),
          U(start), U(full)); pm(&m); printf("\n");
+  if (kind != 0) return;     // the T oracle is about normal segments (a huge segment has the empty mask by definition)
   if (full > 0) {
     size_t idx = 0, cnt = 0, bitidx = MI_COMMIT_MASK_BITS;
     cnt = _mi_commit_mask_next_run(&m, &idx); bitidx = idx;
